@@ -3,15 +3,15 @@ Line protocol, executable model and observable-level monitor for the C05 end-to-
 log of a REAL agent run — calls on the recording `NodePersistence`, frames delivered to remotes, the crash cut,
 the restart and what every item holds afterwards — rendered one entry per line (keys and values are raw bytes).
 
-  cfg … | script … | end <mode> [n] | do …            ;; ok
+  cfg … | script … | script2 … | end <mode> [n] | do … | live   ;; ok
   item <name> <value|map> <persistent 0|1> <default>   ;; ok
-  idfor <name>                                         ;; <id>            (ids are handed out in request order)
-  store get <id> | store readmap <id>                  ;; <hex|none> | <entries>
+  idfor <name>                                         ;; id=<id>         (ids are handed out in request order)
+  store get <id> | store readmap <id>                  ;; val=<hex|none> | map=<entries>
   store put <id> <hex> | upd <id> <k> <v> | rem <id> <k> | clr <id>   ;; ok
   storefail | crash | ended <how> | restart            ;; ok
   send <remote> <lane> linked|synced|unlinked|event <hex> | event upd <k> <v> | event rem <k> | event clr   ;; ok
-  start                                                ;; <name>=<state> …   (what `on_start` saw)
-  restored <name>                                      ;; <state>           (what a sync / the probe saw)
+  start                                                ;; at-start <name>=<state> …   (what `on_start` saw)
+  restored <name>                                      ;; val=<hex> | map=<entries> | none   (what a sync / the probe saw)
 
 The model answers every line from the store operations seen so far: the state of an item after a (re)start is
 `restore ∘ fold` of the logged store operations, a transient item's state is its default. The monitor decides C05
@@ -65,8 +65,11 @@ def LSt.itemState (s : LSt) (it : Item) : String :=
   | .value => hexOfBytes (restoreValue s.store sid it.dflt)
   | .map => renderMap (restoreMap s.store sid)
 
+def LSt.taggedState (s : LSt) (it : Item) : String :=
+  (match it.kind with | .value => "val=" | .map => "map=") ++ s.itemState it
+
 def LSt.allStates (s : LSt) : String :=
-  " ".intercalate (s.items.map fun it => s!"{it.name}={s.itemState it}")
+  "at-start " ++ " ".intercalate (s.items.map fun it => s!"{it.name}={s.itemState it}")
 
 def parseStoreOp : List String → Option (SOp Bytes)
   | ["put", sid, h] => do let i ← sid.toNat?; let b ← bytesOfHex h; pure (.put i b)
@@ -80,6 +83,8 @@ def LSt.step (s : LSt) (line : String) : LSt × String :=
   match words line with
   | "cfg" :: _ => (s, "ok")
   | "script" :: _ => (s, "ok")
+  | "script2" :: _ => (s, "ok")
+  | ["live"] => (s, "ok")
   | "end" :: _ => (s, "ok")
   | "do" :: _ => (s, "ok")
   | "send" :: _ => (s, "ok")
@@ -95,15 +100,15 @@ def LSt.step (s : LSt) (line : String) : LSt × String :=
     | none => (s, "bad-op")
   | ["idfor", name] =>
     match s.sidOf name with
-    | some i => (s, toString i)
-    | none => ({ s with ids := s.ids ++ [name] }, toString s.ids.length)
+    | some i => (s, s!"id={i}")
+    | none => ({ s with ids := s.ids ++ [name] }, s!"id={s.ids.length}")
   | ["store", "get", sid] =>
     match sid.toNat? with
-    | some i => (s, match s.store.getValue i with | some b => hexOfBytes b | none => "none")
+    | some i => (s, "val=" ++ (match s.store.getValue i with | some b => hexOfBytes b | none => "none"))
     | none => (s, "bad-op")
   | ["store", "readmap", sid] =>
     match sid.toNat? with
-    | some i => (s, renderMap (s.store.readMap i))
+    | some i => (s, "map=" ++ renderMap (s.store.readMap i))
     | none => (s, "bad-op")
   | "store" :: rest =>
     match parseStoreOp rest with
@@ -112,7 +117,7 @@ def LSt.step (s : LSt) (line : String) : LSt × String :=
   | ["start"] => (s, s.allStates)
   | ["restored", name] =>
     match s.item? name with
-    | some it => (s, s.itemState it)
+    | some it => (s, s.taggedState it)
     | none => (s, "bad-op")
   | _ => (s, "bad-op")
 
@@ -123,6 +128,8 @@ structure Mon where
   /-- store operations seen so far, as `(store id, rendered operation)` -/
   stored : List (Nat × String) := []
   restarted : Bool := false
+  /-- between a restart and the `live` mark nothing but the restore happens: the store must not change -/
+  quiet : Bool := false
   /-- the states every item must come back with: snapshot of `restore ∘ fold` at the restart -/
   expect : List (String × String) := []
   failed : Bool := false
@@ -154,7 +161,7 @@ def Mon.storeLine (m : Mon) (line : String) (rest : List String) (verb : String)
         let before := m.st.itemState it
         let st' := (m.st.step line).1
         let m' := { m with st := st', stored := (sid, opText) :: m.stored }
-        if m.restarted && st'.itemState it != before then (m', some "store-changed-by-restart")
+        if m.quiet && st'.itemState it != before then (m', some "store-changed-by-restart")
         else (m', none)
 
 def Mon.step (m : Mon) (line : String) (out : String) : Mon × Option String :=
@@ -187,12 +194,13 @@ def Mon.step (m : Mon) (line : String) (out : String) : Mon × Option String :=
             | some need =>
               if m.stored.contains (sid, need) then (m, none) else (m, some "published-before-stored")
     | _ => (m, none)
+  | ["live"] => ({ m with quiet := false }, none)
   | ["storefail"] => ({ m with failed := true }, none)
   | ["crash"] => ({ m with crashed := true }, none)
   | ["ended", how] => ({ m with ended := some how }, none)
   | ["restart"] =>
-    let m' := { m with restarted := true, ended := none,
-                       expect := m.st.items.map fun it => (it.name, m.st.itemState it) }
+    let m' := { m with restarted := true, quiet := true, ended := none, crashed := false, failed := false,
+                       expect := m.st.items.map fun it => (it.name, m.st.taggedState it) }
     if m.crashed then (m', none)
     else if m.failed then
       (m', if m.ended == some "persistence-failure" then none else some "store-failure-not-reported")
